@@ -240,6 +240,9 @@ def check(case):
     uses_sparsity = (case['opts'].get('do_coloring', True) and not case['opts'].get('has_diag_partials')
                      and not case.get('manual')) or bool(case.get('manual_coloring'))
     judge_second = True
+    # ExecComp's own coloring detects the sparsity with exact complex steps; a manually declared coloring goes through the
+    # framework's approximation code, whose sparsity pass uses forward finite differences (noise ~1e-10 relative)
+    thresh = 1e-6 if case.get('manual_coloring') else 1e-22
     if uses_sparsity:
         env0 = _env(case, 0)
         envp = {}
@@ -255,7 +258,7 @@ def check(case):
         for o in case['outs']:
             J1 = refs[1][o['name']][1]
             for n in wrt:
-                weak = np.abs(Jp[o['name']][n]) <= 1e-22 * gmax
+                weak = np.abs(Jp[o['name']][n]) <= thresh * gmax
                 if np.any(weak & (np.abs(J1[n]) > 0.0)):
                     judge_second = False
         if not judge_second:
